@@ -58,8 +58,11 @@ void property(const pbt::Tape& t, pbt::Ctx& ctx) {
         Real sc = 0;
         for (int i = 0; i < nu; ++i) {
             Real a = std::abs(f[i]);
-            for (int b = 1; b < NB; ++b) { SpatialVec ma = refdyn::mul(si[b], A[b]), gy = refdyn::gyro(si[b], V[b]);   // no cancellation between terms
-                a += J[i][b][0].norm() * (ma[0].norm() + gy[0].norm() + F[b][0].norm()) + J[i][b][1].norm() * (ma[1].norm() + gy[1].norm() + F[b][1].norm()); }
+            for (int b = 1; b < NB; ++b) { SpatialVec ma = refdyn::mul(si[b], A[b]);   // no cancellation between terms, nor inside one:
+                // the gyroscopic terms w x (I w), w x (w x mc) vanish for spherical inertia / parallel vectors, leaving rounding
+                // noise judged against a scale of rounding noise -- use the magnitudes of their factors instead
+                const Vec3& w = V[b][0]; const Real gy0 = w.norm() * (si[b].I * w).norm(), gy1 = w.norm() * w.norm() * si[b].mc.norm();
+                a += J[i][b][0].norm() * (ma[0].norm() + gy0 + F[b][0].norm()) + J[i][b][1].norm() * (ma[1].norm() + gy1 + F[b][1].norm()); }
             sc = std::max(sc, a);
         }
         return sc + 1e-300;
